@@ -318,6 +318,7 @@ def run_session(scenario, chunks, inputrc="", rows=24, cols=80, step_timeout=4.0
     try:
         i = 0
         pending_wait = False
+        hung_up = None
         t_idle = time.time()
         cpu0 = s.cpu()
         done = False
@@ -354,6 +355,7 @@ def run_session(scenario, chunks, inputrc="", rows=24, cols=80, step_timeout=4.0
                         s.send(bytes(ch))
                     elif ch[0] == "eof":
                         pending_wait = False
+                        hung_up = len(res["waits"])
                         s.hangup()
                     elif ch[0] == "winch":
                         s.resize(ch[1], ch[2])
@@ -363,6 +365,13 @@ def run_session(scenario, chunks, inputrc="", rows=24, cols=80, step_timeout=4.0
                     t_idle = time.time()
                     cpu0 = s.cpu()
                     continue
+                if hung_up is not None:
+                    # every read of a hung-up terminal fails at once: a call that keeps reading it is spinning
+                    if len(res["waits"]) - hung_up >= 40:
+                        res["outcome"] = "spin"
+                        break
+                    if time.time() - t_idle < 0.6:
+                        continue
                 res["outcome"] = "waiting"
                 break
             if time.time() - t_idle > step_timeout:
